@@ -397,7 +397,11 @@ fn rand_type(rng: &mut Rng, max_layers: usize) -> String {
 }
 
 fn rand_name(rng: &mut Rng, uniq: u64) -> String {
-    let base = match rng.below(9) {
+    let base = match rng.below(11) {
+        // names that look like reserved members of other documents (`$lists` of a serialized
+        // context), or like nothing an identifier can be: a scheme accepts any name
+        9 => (*rng.pick(&["$lists", "$schema", "$", "$x", "#", "@type", "__proto__"])).to_string(),
+        10 => (*rng.pick(&["", " ", "null", "true", "0", "type", "data"])).to_string(),
         0 => "http.request.uri".to_string(),
         1 => "x".to_string(),
         2 => format!("tcp.port.{}", rng.below(5)),
